@@ -111,6 +111,34 @@ example : Nsq.Proofs.InFlight.NoDupPush (InFlight.initSt []) zombieSchedule := b
   simp [Nsq.Proofs.InFlight.NoDupPush, Nsq.Proofs.InFlight.pushes, zombieSchedule, InFlight.step, InFlight.initSt,
     InFlight.okH, InFlight.push, InFlight.up, InFlight.dropCont]
 
+
+/-! ### shape of the timeout scan (`St.scanAtomic`, tie `scan_shape_known`) -/
+
+/-- with heap pop and map pop in **two** critical sections a REQ plus a redelivery of the same message
+in between makes the scan take the *fresh* delivery out of the in-flight map at once (and leaves its
+heap entry behind); with one critical section (fixes/scan_pop_atomic.patch) the REQ finds nothing to
+requeue and the message simply times out -/
+def scanWindowSchedule : List InFlight.Step :=
+  [.put 1, .startMapPush 1 1 10, .startPQPush 1, .scanPeek 50,
+   .reqPop 1 1 0, .reqRemove 1, .reqPut 1, .startMapPush 2 1 1000, .startPQPush 1, .scanPop 1]
+
+theorem scan_two_sections_times_out_fresh_delivery :
+    (match InFlight.run true (InFlight.initSt []) scanWindowSchedule with
+     | InFlight.Res.ok s => s.conts.isEmpty && s.map.isEmpty && decide (s.h.pq = [1]) && decide (s.queued = [1]) &&
+         decide ((s.h.objs 1).pri = 1000)
+     | _ => false) = true := by decide
+
+theorem scan_one_section_safe :
+    (match InFlight.run true { InFlight.initSt [] with scanAtomic := true }
+        [.put 1, .startMapPush 1 1 10, .startPQPush 1, .scanPeek 50, .reqPop 1 1 0, .scanPop 1] with
+     | InFlight.Res.ok s => s.conts.isEmpty && s.map.isEmpty && s.h.pq.isEmpty && decide (s.queued = [1])
+     | _ => false) = true ∧
+    (InFlight.step true
+      (match InFlight.run true { InFlight.initSt [] with scanAtomic := true }
+          [.put 1, .startMapPush 1 1 10, .startPQPush 1, .scanPeek 50, .reqPop 1 1 0] with
+       | InFlight.Res.ok s => s
+       | _ => InFlight.initSt []) (.reqRemove 1)).isPanic = false := by decide
+
 /-! ### the heap code maintains its index fields (all heaps, all arguments) -/
 
 /-- `Push(x)` of an object not in the heap: afterwards every slot's object carries that slot's index -/
